@@ -93,6 +93,11 @@ func (s *GeometryScanner) Scan(d interface{}) error {
 
 	data = d
 	if s.sridInPrefix {
+		if d == nil {
+			// SQL NULL arrives as a nil interface, which the type assertion below would reject
+			return nil
+		}
+
 		raw, ok := d.([]byte)
 		if !ok {
 			return ErrUnsupportedDataType
